@@ -210,6 +210,21 @@ def wl_history(ctx, rng, i):
             cur = stix2.parse(json.dumps(base), allow_custom=True) if form == "object" else dict(base)
         if form == "object" and isinstance(cur, dict):
             form = "dict"
+        if form == "object" and t in M.model(ver).types and rng.random() < 0.3:
+            # the same object built by its constructor from Python-native values: datetimes in assorted offsets, naive ones, the
+            # library's own timestamp class carrying whatever precision metadata (also the slot's own) with or without a zone
+            try:
+                from ..gen import native as _native
+                with warnings.catch_warnings():
+                    warnings.simplefilter("ignore")
+                    built = type(cur)(allow_custom=True, **_native.to_native(ver, base, rng, foreign_meta=True))
+                if json.loads(built.serialize()) == json.loads(cur.serialize()):
+                    cur = built
+                    ctx.count("subjects_built_from_native_values")
+                else:
+                    ctx.skip("constructor route gives a different object (C01's subject)")
+            except Exception as e:
+                ctx.skip("constructor route refused (%s)" % type(e).__name__)
         if form == "dict":
             # "any versionable ... dictionary": also the dictionary classes of the standard library, and content of a later
             # spec version than the library knows (whatever its rules are, a new version is never earlier than the old one)
